@@ -13,6 +13,7 @@ import (
 )
 
 type Exec struct {
+	cntDeclared  map[string]bool
 	eng          *Engine
 	u            *Unit
 	next0        string
